@@ -203,6 +203,47 @@ func (g *gen) genC15() {
 		g.add(&funcs.Class{Prop: "C15", Kind: "apply", Tag: "argexpr:" + e.tag, Ps: ps, Rs: g.types(1+i%3, false),
 			LastExpr: e.expr, LastPayload: e.payload})
 	}
+	// two call sites under ONE derive function name whose argument function types are identical up to the
+	// parameter names (the second site has them in reverse order): one generated function serves both, and
+	// both must still be plumbed by position
+	for i, kind := range []string{"curry", "flip", "apply", "uncurrycurry", "curry", "flip", "apply", "uncurrycurry"} {
+		n := 2 + i%3
+		ps := g.params(naming("named", n))
+		if i >= 4 {
+			for j := range ps {
+				ps[j].T = ps[0].T // all parameters of one type: swapped arguments would still compile
+			}
+		}
+		g.add(&funcs.Class{Prop: "C15", Kind: kind, Tag: "twin", Ps: ps, Rs: g.types(1+i%2, false), Twin: true})
+	}
+	for i := 0; i < 4; i++ {
+		inner := g.params(naming("named", 2+i%2))
+		if i%2 == 0 {
+			for j := range inner {
+				inner[j].T = inner[0].T
+			}
+		}
+		g.add(&funcs.Class{Prop: "C15", Kind: "uncurry", Tag: "twin", Outer: g.params([]string{"z"}), Inner: inner, Rs: g.types(1+i%2, false), Twin: true})
+	}
+	// the type whose spelling contains a per cent sign, in every position of every wrapper
+	pct := 16
+	for i, kind := range []string{"curry", "flip", "apply", "uncurrycurry"} {
+		ps := g.params(naming("named", 2+i%2))
+		ps[i%len(ps)].T = pct
+		g.add(&funcs.Class{Prop: "C15", Kind: kind, Tag: "percent", Ps: ps, Rs: []int{pct, g.anyType()}})
+	}
+	g.add(&funcs.Class{Prop: "C15", Kind: "uncurry", Tag: "percent", Outer: []funcs.Param{{Name: "a", T: pct}}, Inner: []funcs.Param{{Name: "b", T: pct}}, Rs: []int{pct}})
+	g.add(&funcs.Class{Prop: "C15", Kind: "tuple", Tag: "percent", Ts: []int{pct}})
+	g.add(&funcs.Class{Prop: "C15", Kind: "tuple", Tag: "percent", Ts: []int{g.anyType(), pct, pct}})
+	g.add(&funcs.Class{Prop: "C15", Kind: "tuple", Tag: "percent", Ts: []int{pct, g.anyType()}, FromCall: true})
+	// variadic signatures: refused (or served correctly)
+	for i, kind := range []string{"curry", "flip", "apply", "uncurry"} {
+		c := &funcs.Class{Prop: "C15", Kind: kind, Tag: "variadic", Ps: g.params(naming("named", 1+i%2)), Rs: g.types(1, false), Variadic: []string{"interface{}", "int", "string", "NI"}[i]}
+		if kind == "uncurry" {
+			c.Outer, c.Inner, c.Ps = g.params([]string{"a"}), g.params([]string{"b"}), nil
+		}
+		g.add(c)
+	}
 	// tuple
 	for n := 1; n <= 5; n++ {
 		g.add(&funcs.Class{Prop: "C15", Kind: "tuple", Tag: "direct", Ts: g.types(n, false)})
@@ -373,6 +414,35 @@ func (g *gen) genC16() {
 		g.add(&funcs.Class{Prop: "C16", Kind: "toerror", Tag: "errty:" + et, Ps: g.params(naming("named", 1+i%2)), Rs: g.types(i%3, false), ErrTy: et, ErrAt: "arg"})
 		g.add(&funcs.Class{Prop: "C16", Kind: "toerror", Tag: "errty:" + et, Ps: g.params(naming("blankmix", 2+i%2)), Rs: g.types((i+1)%3, false), ErrTy: et, ErrAt: "arg"})
 	}
+	// ---- a variadic stage at every position, with ...interface{} (arguments would be forwarded as ONE slice) and ...int
+	for i, el := range []string{"interface{}", "int", "interface{}", "int", "string", "interface{}"} {
+		n := 2 + i%2
+		st := make([][]int, n)
+		for j := range st {
+			st[j] = g.types(1, true)
+		}
+		pos := []int{0, 0, 1, n - 1, 0, 0}[i]
+		ins := g.types(i%2, true) // the fixed parameters in front of the variadic one
+		if pos > 0 {
+			ins = g.types(1, true)
+		}
+		g.add(&funcs.Class{Prop: "C16", Kind: "compose", Tag: fmt.Sprintf("variadic:%d", pos), Ins: ins, Stages: st, Variadic: el, VarStage: pos})
+	}
+	g.add(&funcs.Class{Prop: "C16", Kind: "toerror", Tag: "variadic", Ps: g.params(naming("named", 1)), Rs: g.types(1, false), Variadic: "int"})
+	// ---- two call sites of one derive function (same types, other parameter names / other stage functions)
+	for i := 0; i < 3; i++ {
+		g.add(&funcs.Class{Prop: "C16", Kind: "toerror", Tag: "twin", Ps: g.params(naming("named", 2+i%2)), Rs: g.types(1+i%2, false), Twin: true})
+		st := [][]int{g.types(1+i%2, true), g.types(1, true)}
+		g.add(&funcs.Class{Prop: "C16", Kind: "compose", Tag: "twin", Ins: g.types(1+i%2, false), Stages: st, Twin: true})
+	}
+	// ---- the type whose spelling contains a per cent sign
+	g.add(&funcs.Class{Prop: "C16", Kind: "compose", Tag: "percent", Ins: []int{16}, Stages: [][]int{{16, g.okType()}, {16}}})
+	g.add(&funcs.Class{Prop: "C16", Kind: "fmape", Tag: "percent", In: 16, Outs: []int{16}})
+	g.add(&funcs.Class{Prop: "C16", Kind: "fmape", Tag: "percent", In: 16, Outs: []int{16, 16}})
+	g.add(&funcs.Class{Prop: "C16", Kind: "joine", Tag: "percent", Outs: []int{16, g.okType()}})
+	g.add(&funcs.Class{Prop: "C16", Kind: "bind", Tag: "percent", In: 16, Outs: []int{16}, Split: true})
+	g.add(&funcs.Class{Prop: "C16", Kind: "traverse", Tag: "percent", In: 16, Outs: []int{16}})
+	g.add(&funcs.Class{Prop: "C16", Kind: "toerror", Tag: "percent", Ps: []funcs.Param{{Name: "a", T: 16}}, Rs: []int{16}})
 	// ---- toerror
 	for _, s := range []string{"named", "blankall", "blankmix", "unnamed", "f0", "err0", "prefixblank", "gennames"} {
 		for n := 1; n <= 3; n++ {
